@@ -666,6 +666,16 @@ func (ck *Check) classificationComplete(rule string) {
 	if g, ch := ck.delegate(fn); g != nil {
 		fn, ctx = g, ch
 	}
+	// every listed node is classified: the loop over the node list runs to the end (a `break` at the
+	// first cordoned node would withhold every node listed after it)
+	for _, l := range loopsOf(fn) {
+		if l.Over == nil {
+			continue
+		}
+		if ot := ctx.Term(l.Over); ot.Kind == "param" {
+			ck.cond(l.FullTraversal(), rule, "classifier/full-traversal", ck.P.instrPos(l.Header.Instrs[0]), funcID(fn), "the classifier's loop over the listed nodes runs to the end of the list", "", "nodes listed after the one that ends the loop are in none of the lists: older untainted nodes are withheld from the taint candidates")
+		}
+	}
 	// the appends to result 0, grouped by the loop (the element) they classify
 	type group struct {
 		n    *Term
